@@ -35,7 +35,7 @@ for i in range(1, 19):
     rows.append(f"| {pid} | {nthm} | {q} | {tt} | {seeds.get(pid, 0)} |")
 p = '/verif/DESIGN.md'
 s = open(p).read()
-a = s.index("| id | theorems")
+a = s.index("| id | theorems", s.index("### Summary: level, measured budgets"))
 b = s.index("\n\n", a)
 s = s[:a] + "\n".join(rows) + s[b:]
 open(p, 'w').write(s)
